@@ -106,6 +106,10 @@ CHECKS = {
          "One server directory with the root database and up to two nested databases behind the production SQL engine; seeded CREATE DATABASE, filling (tables, rows, commits, branches, tags, checkouts, staged and unstaged changes), DROP DATABASE, re-creation under the same name, CALL dolt_undrop (also with another letter case), CALL dolt_purge_dropped_databases and clean restarts; a logical fingerprint taken through SQL just before each DROP (branches, tags, logs, status and every row of every table of every branch) must be what dolt_undrop brings back; an undrop onto a live name must fail and leave the live database unchanged; after a purge nothing may come back.",
          "Only the most recently dropped database of a name is expected back. No crash or I/O fault is injected into the directory moves.",
          "deterministic simulation: seeded drop/create/undrop/purge/restart orders, SQL-level fingerprint oracle", "DESIGN.md §6.3 C47", "dsim-sql"),
+ "C08": ("exploration",
+         "A repository history is built through SQL behind the production engine (commits, second table, branch with working-set-only rows, tag, deleted branch, stash, in-progress conflicted merge, staged and unstaged rows; drawn per run); then CALL dolt_gc (default / --full / --archive-level 0, once or twice, session-aware safepoint controller) runs as one task of the seeded S1 scheduler, parked before BeginGC, every MarkAndSweepChunks, every SaveHashes, Finalize, AddChunksToStore, SwapChunksInStore, EndGC and PruneTableFiles, while 1-3 writer sessions (transactions opened before the collection and committed during or after it) run statements in between. Afterwards and again after a clean restart: the SQL fingerprint of everything the writers do not touch is unchanged; every row whose commit was acknowledged is present; no writer statement failed for a non-transactional reason; a walk from the store root over every reference reads every chunk with bytes that hash to its address.",
+         "Writers run whole statements between scheduling points (a statement blocked by the collection lets the collector go on). Interactive rebase / revert / cherry-pick state and statistics refs are not part of the generated histories. The yield points sit in a wrapper around the ValueStore's chunk store installed through the overlay's white-box accessor; no dolt code is changed.",
+         "deterministic simulation: seeded S1 scheduler over GC phases x writer statements, fingerprint + acknowledged-write + reference-walk oracles, clean restart", "DESIGN.md §6.3 C08", "dsim-sql"),
  "C27": ("exploration",
          "2-3 sessions on main plus one on branch b1 behind the production SQL engine, one keyless table with a secondary index; seeded multi-row INSERT of duplicates, DELETE/UPDATE ... LIMIT n, COMMIT/ROLLBACK, edits on b1, CALL dolt_merge('b1'), clean restarts; a multiset reference model per session and branch predicts every GROUP BY over all columns, COUNT(*) and index lookup; transaction commits and branch merges must combine multiplicity changes row by row and must refuse/report when both sides changed the multiplicity of one row differently.",
          "Refusals for convergent changes (both sides made the same change) are dolt being conservative and are counted, not reported. dolt_merge runs under autocommit (conflicts => rolled back + error); the dolt_conflicts table contents are C43 (pure).",
